@@ -16,9 +16,12 @@ if os.path.exists(hp):
     hook_commits = [l.split()[0] for l in open(hp) if l.strip()]
 checks = []
 na = []
+# a property is claimed only once the coordinator has verified its check on the unchanged tree
+claimed_file = os.path.join(VERIF, "tools", "claimed.txt")
+verified = set(open(claimed_file).read().split()) if os.path.exists(claimed_file) else set()
 for i in ids:
     c = P.PROPS.get(i)
-    if not c or not c.get("claimed", True):
+    if not c or not c.get("claimed", True) or i not in verified:
         na.append({"property_id": i, "reason": (c or {}).get("na_reason", "check not built yet in this commit (work in progress; DESIGN.md section 8 gives the order)")})
         continue
     checks.append({
